@@ -133,6 +133,20 @@ func (d *sdrv) report() {
 				d.cfg.tr.Out("db %s openerr", hxs(n))
 				return
 			}
+			// what the catalog of this database lists: exactly the tables created while it was selected
+			if crows, _, cerr := rs.Fetch("sys_pages"); cerr == nil {
+				var tn []string
+				for _, r := range crows {
+					name := fmt.Sprint(r.Vals[0])
+					if name != "sys_pages" && name != "sys_schema" {
+						tn = append(tn, hxs(name))
+					}
+				}
+				sort.Strings(tn)
+				d.cfg.tr.Out("%s", strings.TrimSpace(fmt.Sprintf("db %s catalog %s", hxs(n), strings.Join(tn, " "))))
+			} else {
+				d.cfg.tr.Out("db %s catalog err", hxs(n))
+			}
 			img := &rdb{cfg: d.cfg, name: n, tables: d.tables[n], rs: rs}
 			for _, t := range img.tables {
 				var trows []*storage.Row
